@@ -168,14 +168,14 @@ func (i Int16) BitwiseXor(other Value) (Int16, Value) {
 
 func (i Int16) LeftBitshiftInt16(other Int16) Int16 {
 	if other < 0 {
-		return i >> -other
+		return i >> uint64(-other)
 	}
 	return i << other
 }
 
 func (i Int16) RightBitshiftInt16(other Int16) Int16 {
 	if other < 0 {
-		return i << -other
+		return i << uint64(-other)
 	}
 	return i >> other
 }
